@@ -324,3 +324,36 @@ example : Ev.ready ∈ [Ev.join, Ev.ready] := by decide
 example : fireChain [none, compNode [Ev.join]] Ev.join = [] := rfl
 
 end Abverif.Comp
+
+namespace Abverif.Comp
+open Spec
+
+/-! ## further concrete instances (non-vacuity of the clauses above) -/
+
+/-- a fatal classification happens, the transport is failed, the other one is tried, and when that one is fatal as
+well start() fails -/
+example :
+    let r := run (init ⟨false, true, false, []⟩ [t1 (-1), t1 (-1)] [])
+      [.start, .outcome .refused true, .outcome .abort true]
+    r.1.done = some false ∧ Obs.fatal 0 ∈ r.2 ∧ Obs.fatal 1 ∈ r.2 ∧ r.1.phase = .dead := by decide
+
+/-- the budget is reached exactly: `max_retries = 1` gives two attempts, then "exhausted" -/
+example :
+    let r := run (init ⟨false, false, false, []⟩ [t1 1] [])
+      [.start, .outcome .refused false, .delayElapsed, .outcome .hsFail false]
+    (r.1.trs.map (·.attempts)) = [2] ∧ r.1.done = some false := by decide
+
+/-- the delay is clamped: initial 1, growth 2, maximum 8 — the fifth attempt would wait 16 and waits 8 -/
+example :
+    let r := run (init ⟨false, false, false, []⟩ [t1 (-1)] [])
+      [.start, .outcome .refused false, .delayElapsed, .outcome .refused false, .delayElapsed,
+       .outcome .refused false, .delayElapsed, .outcome .refused false]
+    r.1.phase = .waiting 0 ⟨8, 1⟩ := by decide
+
+/-- with a main, a join resets the budget: `max_retries = 0`, joined-and-lost three times, still going -/
+example :
+    let r := run (init ⟨true, false, false, []⟩ [t1 0] [])
+      [.start, .outcome .joinedLost false, .outcome .joinedLost false, .outcome .joinedLost false]
+    r.1.phase = .connecting 0 ∧ r.1.done = none := by decide
+
+end Abverif.Comp
